@@ -12,7 +12,7 @@
    stdout: one line per case
      <id> T=<ty|REJECT> FOLD=<LIT kind num|RESIDUAL|REJECT|CRASH> RT=<VAL kind num|FAULT div0|CRASH k>
           CLEAN=<0|1> STRICT=<0|1> UB=<0|1>
-     <id> ASSIGN=<VAL kind num|FAULT ..|CRASH k>
+     <id> ASSIGN=<VAL kind num|FAULT ..|CRASH k> UB=<0|1> FOLD=<as above, of the converted right side>
      <id> TEXT=<text>
 *)
 module M = Arithmodel
@@ -233,8 +233,13 @@ let do_line (line : string) : unit =
         | None -> Printf.printf "%s ASSIGN=REJECT\n" id
         | Some (_, c) ->
           let e' = (match c with Some c -> M.EConv (c, e) | None -> e) in
-          Printf.printf "%s ASSIGN=%s UB=%s\n" id (string_of_outcome (M.rt_assign tl old e))
-            (b01 (ub_of e'))))
+          let f = match M.fold e' with
+            | M.FOk (M.ELit l) -> "LIT " ^ string_of_lit l
+            | M.FOk _ -> "RESIDUAL"
+            | M.FReject -> "REJECT"
+            | M.FCrash -> "CRASH" in
+          Printf.printf "%s ASSIGN=%s UB=%s FOLD=%s\n" id (string_of_outcome (M.rt_assign tl old e))
+            (b01 (ub_of e')) f))
   | "S" :: id :: rest ->
     let (lx, _) = parse_sx rest in
     let txt = match lx with
